@@ -265,7 +265,16 @@ impl<'a> Gen<'a> {
             'r' | 't' | 'y' | 'x' | 'z' | '{' => 6,
             _ => 2,
         };
-        let p = self.params(maxp);
+        let mut p = self.params(maxp);
+        if fin == 't' && self.rng.chance(2, 3) {
+            // window manipulation: only `8;h;w` (resize) and the 4-parameter colour form do anything
+            let vals = param_values(self.w, self.h, self.huge);
+            p = if self.rng.chance(3, 4) {
+                format!("8;{};{}", self.rng.pick(&vals[..]), self.rng.pick(&vals[..]))
+            } else {
+                format!("{};{};{};{}", self.rng.pick(&["0", "1", "2"]), self.rng.pick(&vals[..]), self.rng.pick(&vals[..]), self.rng.pick(&vals[..]))
+            };
+        }
         let s = match inter {
             "?" | "=" | "!" | "<" => format!("\x1b[{}{}{}", inter, p, fin),
             _ => format!("\x1b[{}{}{}", p, inter, fin),
